@@ -94,6 +94,12 @@ const SCENARIOS: &[(&str, bool, &[Act])] = &[
 
 #[cfg(feature = "hooks")]
 fn run_scheduled(ctx: &mut Ctx, scen: usize, schedule: Vec<u8>, fail_budget: u32, seen: &mut HashSet<Vec<crate::sched::Event>>, judge_ledger: bool) -> bool {
+    let mut d = vec![];
+    run_scheduled_d(ctx, scen, schedule, fail_budget, seen, judge_ledger, &mut d)
+}
+
+#[cfg(feature = "hooks")]
+fn run_scheduled_d(ctx: &mut Ctx, scen: usize, schedule: Vec<u8>, fail_budget: u32, seen: &mut HashSet<Vec<crate::sched::Event>>, judge_ledger: bool, decisions: &mut Vec<(u8, u8)>) -> bool {
     use crate::sched::Sched;
     let (name, lazy, acts) = SCENARIOS[scen % SCENARIOS.len()];
     let n = acts.len();
@@ -171,6 +177,7 @@ fn run_scheduled(ctx: &mut Ctx, scen: usize, schedule: Vec<u8>, fail_budget: u32
         }
         drop(fs);
         after = ledger::snap();
+        *decisions = sched.decisions();
         let (ev, injected) = sched.events();
         if injected > 0 {
             ctx.class("sched:weak-cas-failure-injected");
@@ -299,6 +306,15 @@ impl Check for C18 {
                 idx += 1;
             }
         }
+        // systematic DFS of every scenario, with and without weak-CAS failure injection
+        for scen in 0..SCENARIOS.len() as i64 {
+            for fb in [0i64, 1] {
+                if g.mine(idx) {
+                    emit(Case::with("dfs", vec![], &[scen, if g.tier == Tier::Quick { 20_000 } else { 1_000_000 }, fb]));
+                }
+                idx += 1;
+            }
+        }
         let mut r = g.rng(18);
         let n = g.count(64, 1024);
         for _ in 0..n {
@@ -339,6 +355,62 @@ impl Check for C18 {
                     }
                 }
             }
+            "dfs" => {
+                // systematic depth-first exploration of ALL schedules of one scenario at the
+                // granularity of the hooked atomic operations (stateless, by replay)
+                #[cfg(feature = "hooks")]
+                {
+                    let scen = c.p(0) as usize;
+                    let budget = c.p(1) as u64;
+                    let fail_budget = c.p(2) as u32;
+                    let mut seen: HashSet<Vec<crate::sched::Event>> = HashSet::new();
+                    let mut schedule: Vec<u8> = vec![];
+                    let mut runs = 0u64;
+                    let mut exhausted = false;
+                    let mut maxdec = 0usize;
+                    loop {
+                        let mut dec = vec![];
+                        if !run_scheduled_d(ctx, scen, schedule.clone(), fail_budget, &mut seen, runs >= 3, &mut dec) {
+                            break;
+                        }
+                        runs += 1;
+                        maxdec = maxdec.max(dec.len());
+                        // backtrack: last decision with an untried alternative
+                        let mut k = dec.len();
+                        let mut next: Option<Vec<u8>> = None;
+                        while k > 0 {
+                            k -= 1;
+                            if dec[k].0 + 1 < dec[k].1 {
+                                let mut v: Vec<u8> = dec[..k].iter().map(|d| d.0).collect();
+                                v.push(dec[k].0 + 1);
+                                next = Some(v);
+                                break;
+                            }
+                        }
+                        match next {
+                            Some(v) => schedule = v,
+                            None => {
+                                exhausted = true;
+                                break;
+                            }
+                        }
+                        if runs >= budget {
+                            break;
+                        }
+                    }
+                    let name = SCENARIOS[scen % SCENARIOS.len()].0;
+                    ctx.class_n("dfs:schedules-explored", runs);
+                    ctx.class_n("dfs:distinct-event-sequences", seen.len() as u64);
+                    if exhausted {
+                        ctx.class("dfs:scenario-exhausted");
+                    } else {
+                        ctx.class("dfs:scenario-budget-reached");
+                    }
+                    ctx.notes.insert(format!("dfs:{}:weak_cas_failures_allowed={}", name, fail_budget), serde_json::json!({"schedules": runs, "distinct_event_sequences": seen.len(), "exhausted": exhausted, "max_decision_points": maxdec}));
+                    ctx.class("mode:dfs");
+                    ctx.sample("dfs");
+                }
+            }
             "single" => {
                 // one thread is enough to meet a spurious weak-CAS failure under Miri
                 for (name, lazy, acts) in SCENARIOS {
@@ -376,7 +448,7 @@ impl Check for C18 {
         if b.starts_with("miri") {
             vec!["mode:free-running", "mode:single-thread"]
         } else if b == "native-rel" {
-            vec!["mode:scheduled", "mode:free-running", "sched:distinct-event-sequence", "scenario:lazy:3-readers-and-clone", "scenario:owned:3-mixed"]
+            vec!["mode:scheduled", "mode:dfs", "mode:free-running", "sched:distinct-event-sequence", "scenario:lazy:3-readers-and-clone", "scenario:owned:3-mixed"]
         } else {
             vec!["mode:free-running"]
         }
